@@ -2,6 +2,7 @@ package rules
 
 import (
 	"fmt"
+	"go/ast"
 	"go/token"
 	"go/types"
 	"os"
@@ -15,7 +16,7 @@ import (
 func init() {
 	Register(&Property{
 		ID: "C13",
-		Explanation: "Decides the absence of request-controlled nil dereferences and the classification of malformed input: (R13.1) a forward taint analysis marks every pointer a client can make nil -- elements of []*T and *T fields decoded from JSON (null / absent key), message-typed and oneof fields of protobuf request messages read by field selection or through getters -- follows them through calls, closures, variadic packing, append and struct fields across the keto functions reachable from every API entry point, and requires every dereference (field access, load, method call on a nil pointer/interface, non-comma-ok type assertion) to be dominated by a nil test of that value or of another load of the same field; a sink inside a goroutine started on the request path is process-fatal; (R13.2) every parser of request text (strconv.Parse*, uuid.FromString, JSON decoding) on a request path returns or writes, on its error branch, an error whose herodot status is 4xx, and errors of the mapping/validation layer are never re-wrapped as 5xx by a handler; (R13.3) each gRPC interceptor chain starts with the recovery interceptor and later interceptors are only appended, so a handler panic is answered instead of ending the process; (R13.6) a REST write entry that reads the URL query also parses it strictly (a malformed query is a 400, not a silently different request); (R13.4) the page size that reaches LIMIT and the has-more test is normalised (0 = default, negative rejected), and no allocation on a request path is sized by the page size or the depth; (R13.5) the recursions that run on request input (OPL type check, expression parser, check engine) carry a termination certificate, since a stack overflow kills the process and cannot be recovered. " +
+		Explanation: "Decides the absence of request-controlled nil dereferences and the classification of malformed input: (R13.1) a forward taint analysis marks every pointer a client can make nil -- elements of []*T and *T fields decoded from JSON (null / absent key), message-typed and oneof fields of protobuf request messages read by field selection or through getters -- follows them through calls, closures, variadic packing, append and struct fields across the keto functions reachable from every API entry point, and requires every dereference (field access, load, method call on a nil pointer/interface, non-comma-ok type assertion) to be dominated by a nil test of that value or of another load of the same field; a sink inside a goroutine started on the request path is process-fatal; (R13.2) every parser of request text (strconv.Parse*, uuid.FromString, JSON decoding) on a request path returns or writes, on its error branch, an error whose herodot status is 4xx, and errors of the mapping/validation layer are never re-wrapped as 5xx by a handler; (R13.3) each gRPC interceptor chain starts with the recovery interceptor and later interceptors are only appended, so a handler panic is answered instead of ending the process; (R13.8) the query mappers copy a field under the nil test of its pointer only, never depending on its value (a present-but-empty namespace stays a namespace: 404, not 'all namespaces'); (R13.7) token text of an OPL document enters an error message only through %q (raw bytes in a proto string field make the gRPC syntax check answer Internal); (R13.6) a REST write entry that reads the URL query also parses it strictly (a malformed query is a 400, not a silently different request); (R13.4) the page size that reaches LIMIT and the has-more test is normalised (0 = default, negative rejected), and no allocation on a request path is sized by the page size or the depth; (R13.5) the recursions that run on request input (OPL type check, expression parser, check engine) carry a termination certificate, since a stack overflow kills the process and cannot be recovered. " +
 			"Not decided: that state is unchanged on a 4xx (partly C04/C05), exhaustion, panics inside libraries.",
 		Assumptions: []string{
 			"protobuf-go never delivers nil elements in repeated fields, nor a nil message inside a set oneof wrapper, for messages decoded from the wire",
@@ -88,6 +89,8 @@ func runC13(c *Ctx) {
 	r133(c)
 	r134alloc(c, entries)
 	r0412(c, "R13.6")
+	rawTextVerbs(c, "R13.7")
+	mapperQueryGuards(c, "R13.8")
 	// R13.4
 	r073(c)
 	for _, o := range r.Obls {
@@ -633,4 +636,82 @@ func validateAllIsBadRequest(p *core.Program) bool {
 		}
 	}
 	return found
+}
+
+// ---- R13.8 a query field that is present is never treated as absent ------------------------------------
+
+// mapperQueryGuards: the query mappers (Mapper.FromQuery / ToQuery) copy a
+// field into the storage query when the API query has it. "Has it" is the nil
+// test of the pointer: a mapper that also looks at the value (skips "") turns a
+// present-but-empty namespace into "no namespace filter", and a delete or list
+// then runs over every namespace instead of being answered 404.
+func mapperQueryGuards(c *Ctx, rule string) {
+	p, r := c.P, c.R
+	pkg := p.Pkg("internal/relationtuple")
+	if pkg == nil {
+		r.Undecide(rule, "", "anchor package relationtuple", "", "not loaded")
+		return
+	}
+	info := pkg.TypesInfo
+	errT := types.Universe.Lookup("error").Type()
+	n := 0
+	for _, name := range []string{"Mapper.FromQuery", "Mapper.ToQuery"} {
+		fd := core.FuncDecl(pkg, name)
+		if fd == nil {
+			r.Undecide(rule, name, "anchor", "", "not found")
+			continue
+		}
+		var resObj types.Object
+		if fd.Type.Results != nil && len(fd.Type.Results.List) > 0 && len(fd.Type.Results.List[0].Names) > 0 {
+			resObj = info.Defs[fd.Type.Results.List[0].Names[0]]
+		}
+		var bad []string
+		ast.Inspect(fd.Body, func(nd ast.Node) bool {
+			as, ok := nd.(*ast.AssignStmt)
+			if !ok || len(as.Lhs) != 1 {
+				return true
+			}
+			sel, ok := unparen(as.Lhs[0]).(*ast.SelectorExpr)
+			if !ok || resObj == nil || objOf(info, sel.X) != resObj {
+				return true
+			}
+			n++
+			for _, g := range guardsOf(fd.Body, as) {
+				conj := []ast.Expr{g.Cond}
+				if g.True {
+					conj = nil
+					var split func(e ast.Expr)
+					split = func(e ast.Expr) {
+						if be, ok := unparen(e).(*ast.BinaryExpr); ok && be.Op == token.LAND {
+							split(be.X)
+							split(be.Y)
+							return
+						}
+						conj = append(conj, e)
+					}
+					split(g.Cond)
+				}
+				for _, cj := range conj {
+					_, x, y, isCmp := cmpParts(info, cj)
+					if isCmp && isNilExpr(info, y) {
+						continue // presence test / err == nil
+					}
+					if isCmp {
+						if t := info.TypeOf(x); t != nil && types.Identical(t, errT) {
+							continue
+						}
+					}
+					bad = append(bad, fmt.Sprintf("%s is set only if %s (%s)", types.ExprString(as.Lhs[0]), types.ExprString(cj), p.Pos(as.Pos())))
+				}
+			}
+			return true
+		})
+		fname := "internal/relationtuple.(*" + strings.Replace(name, ".", ").", 1)
+		r.Check(len(bad) == 0, rule, fname, "query fields copied under presence tests only", p.Pos(fd.Pos()),
+			"every field of the mapped query is set under nil (presence) tests only",
+			strings.Join(dedupe(bad), "; ")+": a field that is present with that value is dropped from the query, which then matches regardless of it")
+	}
+	if n < 4 {
+		r.Undecide(rule, "", "fields set by the query mappers", "", fmt.Sprintf("%d found (floor 4)", n))
+	}
 }
